@@ -239,6 +239,13 @@ def reorder_glyphs(font: ttLib.TTFont, new_glyph_order: List[str]):
 
     font.setGlyphOrder(new_glyph_order)
 
+    # CFF keeps its own copy of the glyph order, which decides the order CharStrings
+    # are compiled in and the names a reader assigns to them
+    for tag in ("CFF ", "CFF2"):
+        if tag in font.keys():
+            for top_dict in font[tag].cff.topDictIndex:
+                top_dict.charset = list(new_glyph_order)
+
     coverage_containers = {"GDEF", "GPOS", "GSUB", "MATH"}
     for tag in coverage_containers:
         if tag in font.keys():
